@@ -57,9 +57,9 @@ def Mapper.advanceString (m : Mapper) (s : Bytes) : Mapper :=
 
 /-! ## vlq.go -/
 
-def base64Chars : String := "ABCDEFGHIJKLMNOPQRSTUVWXYZabcdefghijklmnopqrstuvwxyz0123456789+/"
-
-def base64Table : Bytes := strBytes base64Chars
+/-- the bytes of `base64Chars` ("ABC…XYZabc…xyz0123456789+/"); tied to the Go constant by a table obligation -/
+def base64Table : Bytes :=
+  [65, 66, 67, 68, 69, 70, 71, 72, 73, 74, 75, 76, 77, 78, 79, 80, 81, 82, 83, 84, 85, 86, 87, 88, 89, 90, 97, 98, 99, 100, 101, 102, 103, 104, 105, 106, 107, 108, 109, 110, 111, 112, 113, 114, 115, 116, 117, 118, 119, 120, 121, 122, 48, 49, 50, 51, 52, 53, 54, 55, 56, 57, 43, 47]
 
 def base64Char (d : Nat) : Nat := base64Table.getD d 0
 
@@ -76,33 +76,40 @@ def encodeVLQ (n : Int) : Bytes := (vlqGroups (vlqSigned n) (vlqSigned n)).map b
 
 /-! ## encodeMappings -/
 
+/-- the delta-encoding state of the `encodeMappings` loop -/
 structure EncState where
-  out : Bytes := []
   prevGenCol : Int := 0
   prevSrcLine : Int := 0
   prevSrcCol : Int := 0
   prevName : Int := 0
   curLine : Int := 0
-  segs : Nat := 0
+  segs : Nat := 0          -- segmentsInCurrentLine
 
-def encodeStep (st : EncState) (m : Mapping) : EncState :=
-  -- semicolons for new lines
+/-- the state after the `for currentLine < mapping.GeneratedLine` loop, which writes `k` semicolons -/
+def EncState.newLines (st : EncState) (k : Nat) : EncState :=
+  if k > 0 then { st with curLine := st.curLine + k, prevGenCol := 0, segs := 0 } else st
+
+/-- one iteration of the loop over the recorded mappings: the text appended and the next state -/
+def encodeStep (st : EncState) (m : Mapping) : Bytes × EncState :=
   let k := (m.genLine - st.curLine).toNat
-  let st := if k > 0 then
-      { st with out := st.out ++ List.replicate k 59, curLine := st.curLine + k, prevGenCol := 0, segs := 0 }
-    else st
-  let out := if st.segs > 0 then st.out ++ [44] else st.out
-  let out := out ++ encodeVLQ (m.genCol - st.prevGenCol) ++ encodeVLQ 0
-                 ++ encodeVLQ (m.srcLine - st.prevSrcLine) ++ encodeVLQ (m.srcCol - st.prevSrcCol)
+  let st1 := st.newLines k
+  let fields := encodeVLQ (m.genCol - st1.prevGenCol) ++ encodeVLQ 0
+                 ++ encodeVLQ (m.srcLine - st1.prevSrcLine) ++ encodeVLQ (m.srcCol - st1.prevSrcCol)
+  let pre := List.replicate k 59 ++ (if st1.segs > 0 then [44] else [])
   match m.name with
   | some i =>
-    { st with out := out ++ encodeVLQ ((i : Int) - st.prevName), prevGenCol := m.genCol,
-              prevSrcLine := m.srcLine, prevSrcCol := m.srcCol, prevName := i, segs := st.segs + 1 }
+    (pre ++ fields ++ encodeVLQ ((i : Int) - st1.prevName),
+     { st1 with prevGenCol := m.genCol, prevSrcLine := m.srcLine, prevSrcCol := m.srcCol, prevName := i,
+                segs := st1.segs + 1 })
   | none =>
-    { st with out := out, prevGenCol := m.genCol, prevSrcLine := m.srcLine, prevSrcCol := m.srcCol,
-              segs := st.segs + 1 }
+    (pre ++ fields,
+     { st1 with prevGenCol := m.genCol, prevSrcLine := m.srcLine, prevSrcCol := m.srcCol, segs := st1.segs + 1 })
 
-def encodeMappings (ms : List Mapping) : Bytes := (ms.foldl encodeStep {}).out
+def encodeFrom (st : EncState) : List Mapping → Bytes
+  | [] => []
+  | m :: ms => (encodeStep st m).1 ++ encodeFrom (encodeStep st m).2 ms
+
+def encodeMappings (ms : List Mapping) : Bytes := encodeFrom {} ms
 
 structure SourceMapV where
   version : Nat
